@@ -309,10 +309,136 @@ theorem connect_gen {N : Nat} {db : DB} (hg : Gen N db false) : GenC N (Conn.con
   unfold DB.connectRaw
   exact key _ _ (checkout_gen hg)
 
-/-- API calls and lifecycle events after which the invariant is re-established
-    (everything except the environment op `warm`) -/
+/-! ### extra connections opened and returned while ours is held (`warm`) -/
+
+/-- the facts `Gen` records about a held connection, for an arbitrary raw connection -/
+def HeldFacts (N : Nat) (db : DB) (r : Raw) : Prop :=
+  r.born ≤ db.clock ∧ db.invalTime < r.born ∧ r.rid < db.nextRid ∧ N ≤ r.rid
+
+/-- clocks only advance, the invalidation time stays -/
+def Mono (db db' : DB) : Prop :=
+  db.clock ≤ db'.clock ∧ db'.invalTime = db.invalTime ∧ db.nextRid ≤ db'.nextRid
+
+theorem HeldFacts.mono {N : Nat} {db db' : DB} {r : Raw} (h : HeldFacts N db r) (hm : Mono db db') :
+    HeldFacts N db' r := by
+  obtain ⟨a, b, c, d⟩ := h
+  obtain ⟨m1, m2, m3⟩ := hm
+  exact ⟨by omega, by rw [m2]; exact b, by omega, d⟩
+
+theorem gen_heldFacts {N : Nat} {db : DB} (hg : Gen N db true) : HeldFacts N db db.raw := by
+  obtain ⟨a, b, c⟩ := hg.1.held rfl
+  exact ⟨a, b, c, hg.2.held rfl⟩
+
+theorem gen_of_heldFacts {N : Nat} {db : DB} {h : Bool} (hg : Gen N db h) (r : Raw)
+    (hf : HeldFacts N db r) : Gen N { db with raw := r } true :=
+  ⟨⟨hg.1.idle, hg.1.inval, fun _ => ⟨hf.1, hf.2.1, hf.2.2.1⟩⟩, ⟨hg.2.next, hg.2.idle, fun _ => hf.2.2.2⟩⟩
+
+theorem newRaw_mono (db : DB) : Mono db db.newRaw := by
+  simp [Mono, DB.newRaw, DB.tick]
+
+theorem checkout_mono (db : DB) : Mono db db.checkout := by
+  unfold DB.checkout
+  split
+  · exact newRaw_mono db
+  · exact newRaw_mono _
+  · simp only []
+    split
+    · exact newRaw_mono _
+    · split <;> exact ⟨Nat.le_refl _, rfl, Nat.le_refl _⟩
+
+theorem applyChar_mono (db : DB) (b : Bool) : Mono db (db.applyChar b) := by
+  unfold DB.applyChar
+  cases b <;> exact ⟨Nat.le_refl _, rfl, Nat.le_refl _⟩
+
+theorem Mono.trans {a b c : DB} (h1 : Mono a b) (h2 : Mono b c) : Mono a c :=
+  ⟨Nat.le_trans h1.1 h2.1, h2.2.1.trans h1.2.1, Nat.le_trans h1.2.2 h2.2.2⟩
+
+theorem connectRaw_mono (db : DB) : Mono db db.connectRaw := by
+  unfold DB.connectRaw
+  have key : ∀ (l : List Bool) (d : DB), Mono d (l.foldl DB.applyChar d) := by
+    intro l
+    induction l with
+    | nil => intro d; exact ⟨Nat.le_refl _, rfl, Nat.le_refl _⟩
+    | cons b bs ih => intro d; exact (applyChar_mono d b).trans (ih _)
+  exact (checkout_mono db).trans (key _ _)
+
+theorem connectRaw_gen {N : Nat} {db : DB} (hg : Gen N db false) : Gen N db.connectRaw true := by
+  have := connect_gen hg
+  exact this
+
+theorem checkin_mono (db : DB) (b : Bool) : Mono db (db.checkin b) := by
+  unfold DB.checkin
+  cases hr : db.reset with
+  | none => simp [Mono]
+  | rollback =>
+    simp only []
+    cases b with
+    | true => simp [Mono]
+    | false =>
+      simp only [Bool.false_eq_true, if_false]
+      cases hf : db.takeFault .rollback with
+      | mk o db1 =>
+        have hs : DataOnly db db1 := by
+          have := takeFault_dataOnly db .rollback; rw [hf] at this; exact this
+        cases o <;> simp [Mono, DB.kill, DB.rollback, hs.clock, hs.invalTime, hs.nextRid]
+  | commit =>
+    simp only []
+    cases hf : db.takeFault .commit with
+    | mk o db1 =>
+      have hs : DataOnly db db1 := by
+        have := takeFault_dataOnly db .commit; rw [hf] at this; exact this
+      cases o <;> simp [Mono, DB.kill, DB.commit, hs.clock, hs.invalTime, hs.nextRid]
+
+theorem warmTake_gen {N : Nat} : ∀ (n : Nat) (db : DB) (acc : List Raw), Gen N db false →
+    (∀ r ∈ acc, HeldFacts N db r) →
+    Gen N (DB.warmTake n db acc).1 false ∧ Mono db (DB.warmTake n db acc).1 ∧
+    (∀ r ∈ (DB.warmTake n db acc).2, HeldFacts N (DB.warmTake n db acc).1 r) := by
+  intro n
+  induction n with
+  | zero => intro db acc hg ha; exact ⟨hg, ⟨Nat.le_refl _, rfl, Nat.le_refl _⟩, ha⟩
+  | succ n ih =>
+    intro db acc hg ha
+    simp only [DB.warmTake]
+    have hc := connectRaw_gen hg
+    have hm := connectRaw_mono db
+    have hacc : ∀ r ∈ acc ++ [db.connectRaw.raw], HeldFacts N db.connectRaw r := by
+      intro r hr
+      rcases List.mem_append.1 hr with hr | hr
+      · exact (ha r hr).mono hm
+      · simp only [List.mem_singleton] at hr
+        subst hr
+        exact gen_heldFacts hc
+    obtain ⟨i1, i2, i3⟩ := ih db.connectRaw _ (gen_unheld hc) hacc
+    exact ⟨i1, hm.trans i2, i3⟩
+
+theorem warmReturn_gen {N : Nat} : ∀ (l : List Raw) (db : DB), Gen N db false →
+    (∀ r ∈ l, HeldFacts N db r) →
+    Gen N (DB.warmReturn l db) false ∧ Mono db (DB.warmReturn l db) := by
+  intro l
+  induction l with
+  | nil => intro db hg _; exact ⟨hg, ⟨Nat.le_refl _, rfl, Nat.le_refl _⟩⟩
+  | cons r rs ih =>
+    intro db hg hl
+    simp only [DB.warmReturn]
+    have h1 := gen_of_heldFacts hg r (hl r List.mem_cons_self)
+    have h2 := checkin_gen false h1
+    have hm : Mono db (({ db with raw := r } : DB).checkin false) := by
+      have := checkin_mono ({ db with raw := r } : DB) false
+      exact this
+    obtain ⟨i1, i2⟩ := ih _ h2 (fun x hx => (hl x (List.mem_cons_of_mem _ hx)).mono hm)
+    exact ⟨i1, hm.trans i2⟩
+
+theorem warm_gen {N : Nat} (n : Nat) {db : DB} (hg : Gen N db true) : Gen N (DB.warm n db) true := by
+  unfold DB.warm
+  simp only []
+  have hheld := gen_heldFacts hg
+  obtain ⟨a1, a2, a3⟩ := warmTake_gen n db [] (gen_unheld hg) (fun _ h => by cases h)
+  obtain ⟨b1, b2⟩ := warmReturn_gen (DB.warmTake n db []).2 (DB.warmTake n db []).1 a1 a3
+  exact gen_of_heldFacts b1 db.raw (hheld.mono (a2.trans b2))
+
+/-- API calls and lifecycle events after which the invariant is re-established: all of them
+    (`warm` needs a held connection, as in the harness) -/
 def Op.tracked : Op → Bool
-  | .warm _ => false
   | _ => true
 
 theorem step_gen {N : Nat} {c : Conn} (hg : GenC N c) (op : Op) (ho : op.tracked = true) :
@@ -325,7 +451,22 @@ theorem step_gen {N : Nat} {c : Conn} (hg : GenC N c) (op : Op) (ho : op.tracked
     | connect =>
       have := gc_gen hg
       exact connect_gen (gen_unheld this)
-    | warm n => simp [Op.tracked] at ho
+    | warm n =>
+      show GenC N ({ c with db := DB.warm n c.db } : Conn)
+      unfold GenC at hg ⊢
+      cases hh : c.hasDbapi with
+      | true => rw [hh] at hg; exact warm_gen n hg
+      | false =>
+        -- without a held connection the extra checkouts see the same pool; the `raw` slot is
+        -- restored afterwards and is not looked at while nothing is held
+        rw [hh] at hg
+        have hheld : Gen N (DB.warm n c.db) false := by
+          unfold DB.warm
+          simp only []
+          obtain ⟨a1, a2, a3⟩ := warmTake_gen n c.db [] hg (fun _ h => by cases h)
+          obtain ⟨b1, _⟩ := warmReturn_gen (DB.warmTake n c.db []).2 (DB.warmTake n c.db []).1 a1 a3
+          exact ⟨⟨b1.1.idle, b1.1.inval, fun e => by cases e⟩, ⟨b1.2.next, b1.2.idle, fun e => by cases e⟩⟩
+        exact hheld
     | _ => simp [Op.plain] at hp
 
 theorem run_gen {N : Nat} : ∀ (ops : List Op) (c : Conn), GenC N c → (∀ op ∈ ops, op.tracked = true) →
